@@ -182,7 +182,7 @@ class C25(Standard):
         scan_ok = A.scan_predicate_compiles(ctx)
         cfgs = self.cfgs(ctx)
         cases = boundary_cases(cfgs, scan_ok)
-        per = 50 if not ctx.thorough else 1000
+        per = 50 if not ctx.thorough else 500
         for cfg in cfgs:
             for k in range(per):
                 own = A.OWN if rng.random() < 0.6 else A.OWN_P
